@@ -8,7 +8,7 @@ COQ = os.path.join(VERIF, 'coq')
 BUILD = os.path.join(VERIF, 'build')
 BIN = os.path.join(BUILD, 'bin')
 OCAML = os.path.join(BUILD, 'ocaml')
-EVID = os.path.join(VERIF, 'evidence')
+EVID = os.environ.get('VERIF_EVIDENCE_DIR') or os.path.join(VERIF, 'evidence')
 REPLAYS = os.path.join(EVID, 'replays')
 NPROC = 16
 
